@@ -3,6 +3,7 @@
 package main
 
 import (
+	"fmt"
 	"strings"
 
 	"verif/harness/internal/h"
@@ -90,6 +91,21 @@ func corpus(r *h.Run) {
 		}
 	}
 	add(Dump{f("a/x", "1"), d("d/a")}, Call{Op: "move", P: "a", Q: "d", FailRename: true})
+	// mkdir -p under a lost creation race / an error reported after the creation: every call that creates directories
+	// (MkDir itself; the destination and parents in Copy / CopyToDirectory / Move / MoveBetweenFS; Touch of "name/") must
+	// give the outcome of the clean call, on both back ends (and R's)
+	for _, kind := range []string{"exist", "io"} {
+		for _, c := range []Call{c1("mkdir", "e.txt"), c1("mkdir", "e.txt/a/b"), c1("mkdir", "a/d/"), c1("mkdir", "a"), c1("touch", "e.txt/"), c1("touch", ".h/a/"),
+			c2("copy", "c", ".h/a/b"), c2("copy", "c", "e.txt/"), c2("copy", "a", "e.txt"), c2("copy", "a", "d"), c2("copy", "a/b", ".h/a/"),
+			c2("copytodir", "c", "e.txt/a"), c2("copytodir", "a", "e.txt"), c2("copytofile", "c", ".h/a"),
+			c2("move", "c", ".h/a/b"), c2("move", "c", "e.txt/"), c2("move", "a", ".h/a"), {Op: "move", P: "a", Q: ".h/a", FailRename: true},
+			{Op: "move", P: "a", Q: "d", FailRename: true}, c2("movebetween", "a", "e.txt/a"), c2("movebetween", "c", ".h/")} {
+			x := c
+			x.MkdirRace = kind
+			add(base, x)
+			raceTwin(r, prog(base, c), prog(base, x))
+		}
+	}
 	for _, src := range []string{"c", "a", ".h", ""} {
 		for _, dst := range []string{"e.txt", "e.txt/", "d", "d/", "b/c", ".h/a", ""} {
 			add(base, c2("copytofile", src, dst))
@@ -255,6 +271,9 @@ func (g *gen) call(cur Dump) Call {
 		if op == "move" && rng.Intn(4) == 0 {
 			c.FailRename = true
 		}
+		if rng.Intn(8) == 0 {
+			c.MkdirRace = []string{"exist", "io"}[rng.Intn(2)]
+		}
 		if len(dst) == 0 {
 			c.Q = "/"
 		}
@@ -274,6 +293,9 @@ func (g *gen) call(cur Dump) Call {
 			op = []string{"mkdir", "touch", "write", "write"}[rng.Intn(4)]
 		}
 		c := Call{Op: op, P: g.arg(g.pathIn(cur)), Flag: rng.Intn(2) == 0}
+		if (op == "mkdir" || op == "touch") && rng.Intn(4) == 0 {
+			c.MkdirRace = []string{"exist", "io"}[rng.Intn(2)]
+		}
 		if op == "write" {
 			c.Data = contents[rng.Intn(len(contents))]
 		}
@@ -450,4 +472,25 @@ func closure(init Dump) Dump {
 		}
 	}
 	return out
+}
+
+// raceTwin: model-independent oracle for the creation race — the program with the fault must be indistinguishable, call by
+// call and on each back end, from the same program without it (mkdir -p succeeds whenever the directory exists afterwards).
+func raceTwin(r *h.Run, clean, raced Program) {
+	a := runProgram(r, clean, true, false)
+	b := runProgram(r, raced, true, false)
+	for i := range raced.Calls {
+		if i >= len(a) || i >= len(b) {
+			return
+		}
+		for k, bn := range []string{"os", "mem"} {
+			if !a[i].res[k].Equal(b[i].res[k]) || a[i].after[k].String() != b[i].after[k].String() {
+				c := raced.Calls[i]
+				r.Fail("mkdir-race-visible:"+c.Op+":"+c.MkdirRace+":"+bn, fmt.Sprintf("%s on the %s back end: %s %s, but without the fault %s %s — the directory exists afterwards, mkdir -p must succeed",
+					c, bn, b[i].res[k], trunc(b[i].after[k].String(), 120), a[i].res[k], trunc(a[i].after[k].String(), 120)),
+					Program{Init: raced.Init, Calls: raced.Calls[:i+1]})
+				return
+			}
+		}
+	}
 }
